@@ -108,6 +108,10 @@ type fnInfo struct {
 	result   typ // tUnit = no result; tError = error
 	usesRecv bool
 	done     bool
+	// extensions (end of this file)
+	exts    []string // external functions the definition is parameterised by
+	ptrRecv bool     // the receiver is a pointer to a one-field struct, passed as state
+	mutRecv bool     // ... and the method assigns it: the definition returns the new state
 }
 
 func (f *fnInfo) pos(n ast.Node) string {
@@ -213,6 +217,9 @@ func wrap(pre []bind, body string) string {
 // ---------------------------------------------------------------- types
 
 func (t *tr) parseType(e ast.Expr) typ {
+	if ty, ok := t.parseTypeExt(e); ok {
+		return ty
+	}
 	switch x := e.(type) {
 	case *ast.Ident:
 		switch x.Name {
@@ -287,6 +294,9 @@ func bytesLit(s string) string {
 // expr: the checked sub-expressions (index, slice, make, calls) are bound to
 // temporaries, in Go's left-to-right evaluation order, before the term is used.
 func (t *tr) expr(e ast.Expr) ([]bind, string, typ) {
+	if pre, s, ty, ok := t.exprExt(e); ok {
+		return pre, s, ty
+	}
 	switch x := e.(type) {
 	case *ast.ParenExpr:
 		return t.expr(x.X)
@@ -408,6 +418,9 @@ func (t *tr) binary(x *ast.BinaryExpr) ([]bind, string, typ) {
 		}
 		return pre, "(" + a + " || " + b + ")", tBool
 	}
+	if s, ty, ok := t.binaryExt(x, a, ta, b, tb); ok {
+		return pre, s, ty
+	}
 	if (op == token.EQL || op == token.NEQ) && (ta == tNil || tb == tNil) {
 		v, tv := a, ta
 		if ta == tNil {
@@ -481,6 +494,9 @@ func (t *tr) coerce(n ast.Node, term string, from, to typ) string {
 func (t *tr) call(x *ast.CallExpr) ([]bind, string, typ) {
 	if x.Ellipsis != token.NoPos {
 		t.un(x, "call with ...")
+	}
+	if pre, s, ty, ok := t.callExt(x); ok {
+		return pre, s, ty
 	}
 	switch f := x.Fun.(type) {
 	case *ast.Ident:
@@ -573,7 +589,7 @@ func (t *tr) callTarget(x *ast.CallExpr, callee *fnInfo, args []ast.Expr) ([]bin
 
 func (t *tr) apply(x *ast.CallExpr, callee *fnInfo, args []ast.Expr) ([]bind, string) {
 	var pre []bind
-	app := "src_" + callee.decl.Name.Name
+	app := "src_" + callee.decl.Name.Name + t.extArgs(callee)
 	if callee.usesRecv {
 		app += " " + coqName(t.fn.recv)
 	}
@@ -689,6 +705,7 @@ func (t *tr) assigned(nodes ...ast.Node) []string {
 			case *ast.IncDecStmt:
 				add(s.X)
 			}
+			t.assignedExt(n, set)
 			return true
 		})
 	}
@@ -759,6 +776,9 @@ func (t *tr) errIdiom(s *ast.IfStmt) (ast.Expr, bool) {
 }
 
 func (t *tr) stmt(s ast.Stmt, last bool, rest func() string) string {
+	if out, ok := t.stmtExt(s, last, rest); ok {
+		return out
+	}
 	switch x := s.(type) {
 	case *ast.EmptyStmt:
 		return rest()
@@ -1070,6 +1090,9 @@ func (t *tr) forStmt(x *ast.ForStmt, rest func() string) string {
 }
 
 func (t *tr) rangeStmt(x *ast.RangeStmt, rest func() string) string {
+	if x.Tok == token.DEFINE && x.Value == nil && x.Key != nil {
+		return t.rangeIdx(x, rest)
+	}
 	if x.Tok != token.DEFINE || x.Value == nil {
 		t.un(x, "range form other than `for _, v := range xs`")
 	}
@@ -1257,12 +1280,13 @@ func translate(f *fnInfo, fns map[string]*fnInfo, used map[string]bool, usedCons
 				continue
 			}
 			if ty == tError {
-				t.un(fl, "error parameter")
+				ty = tErrVal // an error VALUE handed in (compared with nil, stored); see the end of this file
 			}
 			f.params = append(f.params, param{n.Name, ty})
 		}
 	}
 	f.usesRecv = usesReceiver(f, fns, t.consts)
+	t.setupExt()
 	for _, p := range f.params {
 		t.declare(d, p.name, p.ty)
 	}
@@ -1273,6 +1297,9 @@ func translate(f *fnInfo, fns map[string]*fnInfo, used map[string]bool, usedCons
 		if f.result != tUnit {
 			t.un(d, "function body that does not end in return")
 		}
+		if f.mutRecv {
+			return "ret (Ret " + coqName(f.recv) + ")"
+		}
 		return "ret (Norm tt)"
 	})
 	for k, v := range t.consts {
@@ -1281,7 +1308,7 @@ func translate(f *fnInfo, fns map[string]*fnInfo, used map[string]bool, usedCons
 		}
 	}
 	var sig strings.Builder
-	fmt.Fprintf(&sig, "Definition src_%s", d.Name.Name)
+	fmt.Fprintf(&sig, "Definition src_%s%s", d.Name.Name, extSig(f))
 	if f.usesRecv {
 		fmt.Fprintf(&sig, " (%s : view)", coqName(f.recv))
 	}
@@ -1295,6 +1322,9 @@ func translate(f *fnInfo, fns map[string]*fnInfo, used map[string]bool, usedCons
 	wrapper := "fn_body"
 	if f.result == tUnit {
 		wrapper = "fn_body_unit"
+	}
+	if f.mutRecv {
+		rt, wrapper = mutResult(f, rt), "fn_body"
 	}
 	if f.writer == "" {
 		fmt.Fprintf(&sig, " : fres %s :=\npure_fn (%s (\n%s)).\n", parenType(rt), wrapper, body)
@@ -1441,7 +1471,7 @@ func main() {
 			fmt.Fprintf(&b, "     .%s = %s   (a constant: the string literal every composite literal of the\n       receiver's type sets, never assigned; read from the source)\n", k, usedConsts[k])
 		}
 	}
-	fmt.Fprintf(&b, "%s*)\nFrom Tab Require Import Base.GoSem%s.\nLocal Open Scope Z_scope.\n", libHeader(), libImport())
+	fmt.Fprintf(&b, "%s*)\nFrom Tab Require Import Base.GoSem%s.\nLocal Open Scope Z_scope.\n", libHeader()+extHeader(), libImport())
 	for _, d := range defs {
 		b.WriteString("\n")
 		b.WriteString(d)
@@ -1527,4 +1557,687 @@ func (t *tr) libCall(x *ast.CallExpr, name string) ([]bind, string, typ, bool) {
 		return append(p1, p2...), fmt.Sprintf("(lib_strings_Replace1 %d%%N %s %s)", old[0], atom(nw), atom(s)), tString, true
 	}
 	return nil, "", "", false
+}
+
+// ================================================================ extensions
+// (length/length.go, error_containers.go; notes/SOURCE_TIE_2.md)
+//
+//   - []string = list bytes; s == "" on strings; ss[i], ss[:n], len(ss);
+//   - `switch e { case 0: ... case 1: ... default: ... }` on an int, constants
+//     only, no fallthrough, no break: an if-chain on the tag evaluated once;
+//   - `for i := range xs`: one trip per index of xs as it is when the loop is
+//     entered (range_loop over range_idx xs);
+//   - calls of EXTERNAL functions, by import path:
+//     strings.Split(s, "<one byte>")    = strings_Split1 s <byte>   (defined in the prelude)
+//     utf8.RuneCountInString(s)         = utf8_RuneCountInString s  (defined in the prelude)
+//     runewidth.StringWidth(s)          = a PARAMETER runewidth_StringWidth : bytes -> Z of
+//     every definition that reaches it (nothing is assumed about it here);
+//   - an `error` parameter / element is a VALUE goerror (nil or an opaque non-nil
+//     error): compared with nil, stored, never looked into;  []error = a nil-able
+//     slice option (list goerror), make([]error, 0, n) = the empty non-nil slice
+//     (capacity is not observable by the translated functions and is dropped),
+//     append(s, e);  a slice is a VALUE: indexed stores into such slices are not
+//     translated, so sharing of backing arrays cannot be observed by the subset;
+//   - a method on a pointer to a struct declared in the same file with exactly ONE
+//     field: the receiver is STATE, option <field type> (None = the nil pointer);
+//     p.f reads (deref p: a nil p panics), p.f = e writes; a method that assigns
+//     the receiver returns the new state (with its result, if it has one).
+
+const (
+	tStrings typ = "[]string"
+	tErrVal  typ = "error value"
+	tErrs    typ = "[]error"
+	tPtrS    typ = "*struct{f []error}"
+)
+
+var extType = map[string]string{"runewidth_StringWidth": "bytes -> Z"}
+var usedExternals = map[string]string{}
+var usedStructs = map[string]string{}
+
+func init() {
+	coqType[tStrings] = "list bytes"
+	coqType[tErrVal] = "goerror"
+	coqType[tErrs] = "option (list goerror)"
+	coqType[tPtrS] = "option (option (list goerror))"
+	for _, w := range strings.Fields(`runewidth_StringWidth strings_Split1 utf8_RuneCountInString goerror deref append1
+		range_idx Some None option list Z N nat bool unit`) {
+		reserved[w] = true
+	}
+}
+
+// the struct type a *T names, if it is declared in this file with exactly one
+// field, of type []error
+func (t *tr) oneFieldStruct(name string) (string, bool) {
+	for _, d := range t.fn.file.Decls {
+		gd, ok := d.(*ast.GenDecl)
+		if !ok || gd.Tok != token.TYPE {
+			continue
+		}
+		for _, sp := range gd.Specs {
+			ts := sp.(*ast.TypeSpec)
+			st, ok := ts.Type.(*ast.StructType)
+			if !ok || ts.Name.Name != name || ts.TypeParams != nil {
+				continue
+			}
+			if st.Fields.NumFields() != 1 || len(st.Fields.List[0].Names) != 1 {
+				return "", false
+			}
+			at, ok := st.Fields.List[0].Type.(*ast.ArrayType)
+			if !ok || at.Len != nil || !isPkg(at.Elt, "error") {
+				return "", false
+			}
+			return st.Fields.List[0].Names[0].Name, true
+		}
+	}
+	return "", false
+}
+
+func (t *tr) parseTypeExt(e ast.Expr) (typ, bool) {
+	switch x := e.(type) {
+	case *ast.ArrayType:
+		if x.Len == nil && isPkg(x.Elt, "string") {
+			return tStrings, true
+		}
+		if x.Len == nil && isPkg(x.Elt, "error") {
+			return tErrs, true
+		}
+	case *ast.StarExpr:
+		if id, ok := x.X.(*ast.Ident); ok {
+			if f, ok := t.oneFieldStruct(id.Name); ok {
+				usedStructs[id.Name] = f
+				return tPtrS, true
+			}
+		}
+	}
+	return "", false
+}
+
+// the import path a package identifier stands for ("" = not a package here)
+func (t *tr) importPath(e ast.Expr) string {
+	id, ok := e.(*ast.Ident)
+	if !ok {
+		return ""
+	}
+	if _, local := t.env[id.Name]; local {
+		return ""
+	}
+	defaults := map[string]string{"github.com/mattn/go-runewidth": "runewidth"}
+	for _, im := range t.fn.file.Imports {
+		p, _ := strconv.Unquote(im.Path.Value)
+		name := filepath.Base(p)
+		if d, ok := defaults[p]; ok {
+			name = d
+		}
+		if im.Name != nil {
+			name = im.Name.Name
+		}
+		if name == id.Name {
+			return p
+		}
+	}
+	return ""
+}
+
+func (t *tr) needExt(name string) {
+	for _, e := range t.fn.exts {
+		if e == name {
+			return
+		}
+	}
+	t.fn.exts = append(t.fn.exts, name)
+}
+
+// the external parameters a callee is applied to (the caller takes them too)
+func (t *tr) extArgs(callee *fnInfo) string {
+	s := ""
+	for _, e := range callee.exts {
+		t.needExt(e)
+		s += " " + e
+	}
+	return s
+}
+
+func extSig(f *fnInfo) string {
+	s := ""
+	for _, e := range f.exts {
+		s += fmt.Sprintf(" (%s : %s)", e, extType[e])
+	}
+	if f.ptrRecv {
+		s += fmt.Sprintf(" (%s : %s)", coqName(f.recv), coqType[tPtrS])
+	}
+	return s
+}
+
+func mutResult(f *fnInfo, rt string) string {
+	if f.result == tUnit {
+		return coqType[tPtrS]
+	}
+	return coqType[tPtrS] + " * " + rt
+}
+
+// the local (or receiver) a selector p.f reads, if p is a pointer to a one-field struct
+func (t *tr) fieldOf(e ast.Expr) (string, bool) {
+	s, ok := e.(*ast.SelectorExpr)
+	if !ok {
+		return "", false
+	}
+	id, ok := s.X.(*ast.Ident)
+	if !ok || t.env[id.Name] != tPtrS {
+		return "", false
+	}
+	if id.Name != t.fn.recv || !t.fn.ptrRecv {
+		t.un(e, "field of a struct pointer other than the receiver")
+	}
+	rt := t.fn.decl.Recv.List[0].Type.(*ast.StarExpr).X.(*ast.Ident).Name
+	if f, _ := t.oneFieldStruct(rt); f != s.Sel.Name {
+		t.un(e, "field "+s.Sel.Name+" (not the field of "+rt+")")
+	}
+	return id.Name, true
+}
+
+func (t *tr) setupExt() {
+	f := t.fn
+	if f.recv == "" {
+		return
+	}
+	st, ok := f.decl.Recv.List[0].Type.(*ast.StarExpr)
+	if !ok {
+		return
+	}
+	id, ok := st.X.(*ast.Ident)
+	if !ok {
+		return
+	}
+	field, ok := t.oneFieldStruct(id.Name)
+	if !ok {
+		return
+	}
+	usedStructs[id.Name] = field
+	f.ptrRecv, f.usesRecv = true, false
+	t.env[f.recv] = tPtrS
+	t.order = append(t.order, f.recv)
+	// does the body assign the receiver (its field, or through a method that does)?
+	ast.Inspect(f.decl.Body, func(n ast.Node) bool {
+		set := map[string]bool{}
+		t.assignedExt(n, set)
+		if set[f.recv] {
+			f.mutRecv = true
+		}
+		if as, ok := n.(*ast.AssignStmt); ok {
+			for _, l := range as.Lhs {
+				if isPkg(l, f.recv) {
+					t.un(n, "assignment to the receiver variable itself")
+				}
+			}
+		}
+		if u, ok := n.(*ast.UnaryExpr); ok && u.Op == token.AND {
+			t.un(n, "address-of inside a method on a struct pointer")
+		}
+		return true
+	})
+}
+
+// assignments the generic scan does not see: p.f = e, and p.M(...) for a
+// translated method M that assigns its receiver
+func (t *tr) assignedExt(n ast.Node, set map[string]bool) {
+	switch s := n.(type) {
+	case *ast.AssignStmt:
+		for _, l := range s.Lhs {
+			if sel, ok := l.(*ast.SelectorExpr); ok {
+				if id, ok := sel.X.(*ast.Ident); ok {
+					set[id.Name] = true
+				}
+			}
+		}
+	case *ast.IncDecStmt:
+		if sel, ok := s.X.(*ast.SelectorExpr); ok {
+			if id, ok := sel.X.(*ast.Ident); ok {
+				set[id.Name] = true
+			}
+		}
+	case *ast.CallExpr:
+		if sel, ok := s.Fun.(*ast.SelectorExpr); ok {
+			if id, ok := sel.X.(*ast.Ident); ok && t.fn.recv != "" && id.Name == t.fn.recv {
+				if g, ok := t.fns[sel.Sel.Name]; ok && g.ptrRecv && g.mutRecv {
+					set[id.Name] = true
+				}
+			}
+		}
+	}
+}
+
+func (t *tr) exprExt(e ast.Expr) ([]bind, string, typ, bool) {
+	switch x := e.(type) {
+	case *ast.IndexExpr:
+		id, ok := x.X.(*ast.Ident)
+		if !ok {
+			return nil, "", "", false
+		}
+		var el typ
+		a := coqName(id.Name)
+		switch t.env[id.Name] {
+		case tStrings:
+			el = tString
+		case tErrs:
+			el, a = tErrVal, "(slice_of "+a+")"
+		default:
+			return nil, "", "", false
+		}
+		pre, i, ti := t.expr(x.Index)
+		if ti != tInt {
+			t.un(e, "index of type "+string(ti))
+		}
+		n := t.fresh()
+		return append(pre, bind{n, fmt.Sprintf("index %s %s", a, atom(i))}), n, el, true
+	case *ast.SliceExpr:
+		id, ok := x.X.(*ast.Ident)
+		if !ok || t.env[id.Name] != tStrings {
+			return nil, "", "", false
+		}
+		if x.Low != nil || x.High == nil || x.Max != nil || x.Slice3 {
+			t.un(e, "slice expression other than b[:n]")
+		}
+		pre, h, th := t.expr(x.High)
+		if th != tInt {
+			t.un(e, "slice bound of type "+string(th))
+		}
+		n := t.fresh()
+		return append(pre, bind{n, fmt.Sprintf("slice_to %s %s", coqName(id.Name), atom(h))}), n, tStrings, true
+	case *ast.SelectorExpr:
+		if p, ok := t.fieldOf(e); ok {
+			n := t.fresh()
+			return []bind{{n, "deref " + coqName(p)}}, n, tErrs, true
+		}
+	case *ast.UnaryExpr:
+		// &T{f: e} for a one-field struct T
+		cl, ok := x.X.(*ast.CompositeLit)
+		if x.Op != token.AND || !ok {
+			return nil, "", "", false
+		}
+		id, ok := cl.Type.(*ast.Ident)
+		if !ok {
+			t.un(e, "composite literal")
+		}
+		field, ok := t.oneFieldStruct(id.Name)
+		if !ok {
+			t.un(e, "composite literal of "+id.Name+" (not a struct of this file with exactly one []error field)")
+		}
+		usedStructs[id.Name] = field
+		switch len(cl.Elts) {
+		case 0:
+			return nil, "(Some None)", tPtrS, true
+		case 1:
+			kv, ok := cl.Elts[0].(*ast.KeyValueExpr)
+			if !ok || !isPkg(kv.Key, field) {
+				t.un(e, "composite literal element")
+			}
+			pre, v, ty := t.expr(kv.Value)
+			if ty == tNil {
+				v, ty = "None", tErrs
+			}
+			if ty != tErrs {
+				t.un(e, "field value of type "+string(ty))
+			}
+			return pre, "(Some " + atom(v) + ")", tPtrS, true
+		}
+		t.un(e, "composite literal with several elements")
+	}
+	return nil, "", "", false
+}
+
+func (t *tr) binaryExt(x *ast.BinaryExpr, a string, ta typ, b string, tb typ) (string, typ, bool) {
+	op := x.Op
+	if op != token.EQL && op != token.NEQ {
+		return "", "", false
+	}
+	if ta == tString && tb == tString {
+		if op == token.EQL {
+			return "(bytes_eqb " + atom(a) + " " + atom(b) + ")", tBool, true
+		}
+		return "(negb (bytes_eqb " + atom(a) + " " + atom(b) + "))", tBool, true
+	}
+	if ta == tNil || tb == tNil {
+		v, tv := a, ta
+		if ta == tNil {
+			v, tv = b, tb
+		}
+		switch tv {
+		case tErrVal, tErrs, tPtrS:
+			if op == token.NEQ {
+				return "(not_nil " + atom(v) + ")", tBool, true
+			}
+			return "(negb (not_nil " + atom(v) + "))", tBool, true
+		}
+	}
+	return "", "", false
+}
+
+func (t *tr) callExt(x *ast.CallExpr) ([]bind, string, typ, bool) {
+	switch f := x.Fun.(type) {
+	case *ast.Ident:
+		if _, shadow := t.env[f.Name]; shadow {
+			return nil, "", "", false
+		}
+		switch f.Name {
+		case "len":
+			if len(x.Args) != 1 {
+				return nil, "", "", false
+			}
+			mine := false
+			if id, ok := x.Args[0].(*ast.Ident); ok {
+				ty := t.env[id.Name]
+				mine = ty == tStrings || ty == tErrs
+			} else if _, ok := x.Args[0].(*ast.SelectorExpr); ok {
+				mine = true
+			}
+			if !mine {
+				return nil, "", "", false
+			}
+			pre, a, ta := t.expr(x.Args[0])
+			switch ta {
+			case tStrings:
+				return pre, "(Zlen " + a + ")", tInt, true
+			case tErrs:
+				return pre, "(Zlen (slice_of " + a + "))", tInt, true
+			}
+			t.un(x, "len of a "+string(ta))
+		case "append":
+			if len(x.Args) != 2 {
+				t.un(x, "append with other than two operands")
+			}
+			p1, a, ta := t.expr(x.Args[0])
+			p2, b, tb := t.expr(x.Args[1])
+			if ta != tErrs || tb != tErrVal {
+				t.un(x, "append("+string(ta)+", "+string(tb)+")")
+			}
+			return append(p1, p2...), "(append1 " + atom(a) + " " + atom(b) + ")", tErrs, true
+		case "make":
+			if len(x.Args) < 1 {
+				return nil, "", "", false
+			}
+			if ty, ok := t.parseTypeExt(x.Args[0]); !ok || ty != tErrs {
+				return nil, "", "", false
+			}
+			// make([]error, 0) / make([]error, 0, cap): the empty non-nil slice
+			if len(x.Args) < 2 || len(x.Args) > 3 {
+				t.un(x, "make([]error ...) argument count")
+			}
+			for i, a := range x.Args[1:] {
+				lit, ok := a.(*ast.BasicLit)
+				if !ok || lit.Kind != token.INT || (i == 0 && lit.Value != "0") {
+					t.un(x, "make([]error, n, c) other than length literal 0 and a literal capacity")
+				}
+				if v, err := strconv.ParseInt(lit.Value, 0, 64); err != nil || v < 0 {
+					t.un(x, "make([]error ...) size")
+				}
+			}
+			return nil, "(Some (@nil goerror))", tErrs, true
+		}
+	case *ast.SelectorExpr:
+		path := t.importPath(f.X)
+		if path == "" {
+			return nil, "", "", false
+		}
+		name := path + "." + f.Sel.Name
+		switch name {
+		case "strings.Split":
+			if len(x.Args) != 2 {
+				t.un(x, "strings.Split argument count")
+			}
+			lit, ok := x.Args[1].(*ast.BasicLit)
+			if !ok || lit.Kind != token.STRING {
+				t.un(x, "strings.Split with a separator that is not a string literal")
+			}
+			sep, err := strconv.Unquote(lit.Value)
+			if err != nil || len(sep) != 1 {
+				t.un(x, "strings.Split with a separator that is not one byte")
+			}
+			pre, a, ta := t.expr(x.Args[0])
+			if ta != tString {
+				t.un(x, "strings.Split of a "+string(ta))
+			}
+			usedExternals[name] = fmt.Sprintf("strings.Split(s, <one byte b>)   = strings_Split1 s b   (Base/GoSem.v: the maximal b-free pieces of s, in order; never empty)")
+			return pre, fmt.Sprintf("(strings_Split1 %s %d%%N)", atom(a), sep[0]), tStrings, true
+		case "unicode/utf8.RuneCountInString":
+			if len(x.Args) != 1 {
+				t.un(x, "utf8.RuneCountInString argument count")
+			}
+			pre, a, ta := t.expr(x.Args[0])
+			if ta != tString {
+				t.un(x, "utf8.RuneCountInString of a "+string(ta))
+			}
+			usedExternals[name] = "utf8.RuneCountInString(s)       = utf8_RuneCountInString s = Z.of_nat (rune_count s)   (Base/Utf8.v: Go's decoder, an invalid byte is one rune)"
+			return pre, "(utf8_RuneCountInString " + atom(a) + ")", tInt, true
+		case "github.com/mattn/go-runewidth.StringWidth":
+			if len(x.Args) != 1 {
+				t.un(x, "runewidth.StringWidth argument count")
+			}
+			pre, a, ta := t.expr(x.Args[0])
+			if ta != tString {
+				t.un(x, "runewidth.StringWidth of a "+string(ta))
+			}
+			t.needExt("runewidth_StringWidth")
+			usedExternals[name] = "runewidth.StringWidth(s)        = runewidth_StringWidth s, a PARAMETER (bytes -> Z) of every definition that reaches it: a pure function of the string, nothing else is assumed"
+			return pre, "(runewidth_StringWidth " + atom(a) + ")", tInt, true
+		}
+	}
+	return nil, "", "", false
+}
+
+func (t *tr) stmtExt(s ast.Stmt, last bool, rest func() string) (string, bool) {
+	switch x := s.(type) {
+	case *ast.SwitchStmt:
+		return t.switchStmt(x, rest), true
+	case *ast.ReturnStmt:
+		f := t.fn
+		if f.mutRecv {
+			if !last {
+				t.un(s, "statements after return")
+			}
+			r := coqName(f.recv)
+			if f.result == tUnit {
+				if len(x.Results) != 0 {
+					t.un(s, "return with a value")
+				}
+				return "ret (Ret " + r + ")", true
+			}
+			if len(x.Results) != 1 {
+				t.un(s, "return arity")
+			}
+			pre, v, ty := t.expr(x.Results[0])
+			if ty == tNil && (f.result == tErrs || f.result == tErrVal || f.result == tPtrS) {
+				v, ty = "None", f.result
+			}
+			if ty != f.result {
+				t.un(s, "return of a "+string(ty)+" from a function returning "+string(f.result))
+			}
+			return wrap(pre, "ret (Ret ("+r+", "+v+"))"), true
+		}
+		if len(x.Results) == 1 && isPkg(x.Results[0], "nil") && (f.result == tErrs || f.result == tErrVal || f.result == tPtrS) {
+			if _, local := t.env["nil"]; !local {
+				if !last {
+					t.un(s, "statements after return")
+				}
+				return "ret (Ret None)", true
+			}
+		}
+	case *ast.AssignStmt:
+		if len(x.Lhs) != 1 || len(x.Rhs) != 1 {
+			return "", false
+		}
+		if _, ok := x.Lhs[0].(*ast.SelectorExpr); !ok {
+			return "", false
+		}
+		p, ok := t.fieldOf(x.Lhs[0])
+		if !ok {
+			return "", false
+		}
+		if x.Tok != token.ASSIGN {
+			t.un(s, "assignment operator "+x.Tok.String()+" on a field")
+		}
+		pre, v, ty := t.expr(x.Rhs[0])
+		if ty == tNil {
+			v, ty = "None", tErrs
+		}
+		if ty != tErrs {
+			t.un(s, "assignment of a "+string(ty)+" to a []error field")
+		}
+		n := coqName(p)
+		return wrap(pre, fmt.Sprintf("mbind (deref %s) (fun _ =>\nlet %s := (Some %s) in\n%s)", n, n, atom(v), rest())), true
+	case *ast.ExprStmt:
+		c, ok := x.X.(*ast.CallExpr)
+		if !ok {
+			return "", false
+		}
+		sel, ok := c.Fun.(*ast.SelectorExpr)
+		if !ok || !t.fn.ptrRecv || !isPkg(sel.X, t.fn.recv) {
+			return "", false
+		}
+		g, ok := t.fns[sel.Sel.Name]
+		if !ok || !g.ptrRecv || !g.done {
+			t.un(s, "call of the receiver's method "+sel.Sel.Name+" (not a translated target listed before this function)")
+		}
+		if g.result != tUnit {
+			t.un(s, "call of "+sel.Sel.Name+" whose result is dropped")
+		}
+		if c.Ellipsis != token.NoPos || len(c.Args) != len(g.params) {
+			t.un(s, "argument list of "+sel.Sel.Name)
+		}
+		// p.M(args): a nil p is passed on as it is (M decides); the arguments are
+		// evaluated first, left to right
+		var pre []bind
+		app := "src_" + sel.Sel.Name + t.extArgs(g) + " " + coqName(t.fn.recv)
+		for i, a := range c.Args {
+			p, v, ty := t.expr(a)
+			if ty == tNil && g.params[i].ty != tInt && g.params[i].ty != tBool {
+				v, ty = "None", g.params[i].ty
+			}
+			pre = append(pre, p...)
+			app += " " + atom(t.coerce(a, v, ty, g.params[i].ty))
+		}
+		n := coqName(t.fn.recv)
+		if g.mutRecv {
+			return wrap(pre, fmt.Sprintf("mbind (lift_pure (%s)) (fun %s =>\n%s)", app, n, rest())), true
+		}
+		return wrap(pre, fmt.Sprintf("mbind (lift_pure (%s)) (fun _ =>\n%s)", app, rest())), true
+	}
+	return "", false
+}
+
+func (t *tr) switchStmt(x *ast.SwitchStmt, rest func() string) string {
+	if x.Init != nil || x.Tag == nil {
+		t.un(x, "switch with an init statement or without a tag")
+	}
+	pre, tag, ty := t.expr(x.Tag)
+	if ty != tInt {
+		t.un(x, "switch on a "+string(ty))
+	}
+	asg := t.assigned(x.Body)
+	tv := t.fresh()
+	type arm struct {
+		cond string
+		body []ast.Stmt
+	}
+	var arms []arm
+	var def []ast.Stmt
+	hasDef := false
+	seen := map[int64]bool{}
+	for _, st := range x.Body.List {
+		cc := st.(*ast.CaseClause)
+		if cc.List == nil {
+			if hasDef {
+				t.un(cc, "two default clauses")
+			}
+			hasDef, def = true, cc.Body
+			continue
+		}
+		var cs []string
+		for _, e := range cc.List {
+			lit, ok := e.(*ast.BasicLit)
+			if !ok || lit.Kind != token.INT {
+				t.un(e, "case that is not an integer literal")
+			}
+			v, err := strconv.ParseInt(lit.Value, 0, 64)
+			if err != nil || seen[v] {
+				t.un(e, "case "+lit.Value)
+			}
+			seen[v] = true
+			cs = append(cs, fmt.Sprintf("(%s =? %d)", tv, v))
+		}
+		c := cs[0]
+		if len(cs) > 1 {
+			c = "(" + strings.Join(cs, " || ") + ")"
+		}
+		arms = append(arms, arm{c, cc.Body})
+	}
+	// break would leave the switch, continue the enclosing loop: neither is translated here
+	saveIn := t.inLoop
+	t.inLoop = false
+	chain := t.scoped(def, asg)
+	for i := len(arms) - 1; i >= 0; i-- {
+		chain = fmt.Sprintf("if %s then\n%s\nelse\n%s", arms[i].cond, t.scoped(arms[i].body, asg), chain)
+	}
+	t.inLoop = saveIn
+	return wrap(pre, fmt.Sprintf("let %s := %s in\nsbind (%s) (%s\n%s)", tv, tag, chain, t.lam(asg), rest()))
+}
+
+// for i := range xs
+func (t *tr) rangeIdx(x *ast.RangeStmt, rest func() string) string {
+	k, ok := x.Key.(*ast.Ident)
+	if !ok || k.Name == "_" {
+		t.un(x, "range key")
+	}
+	pre, xs, ty := t.expr(x.X)
+	switch ty {
+	case tStrings, tBytes, tCells, tRows:
+	case tErrs, tCellsOpt:
+		xs = "(slice_of " + xs + ")"
+	default:
+		t.un(x, "range over a "+string(ty)+" (only slices; a string ranges over runes)")
+	}
+	carried := t.assigned(x.Body)
+	outer := t.save()
+	t.declare(x, k.Name, tInt)
+	for _, v := range t.assigned(x.Body) {
+		if v == k.Name {
+			t.un(x, "assignment to the range index "+v+" inside the loop")
+		}
+	}
+	saveLoop, saveIn := t.loop, t.inLoop
+	t.loop, t.inLoop = carried, true
+	body := t.scoped(x.Body.List, carried)
+	t.loop, t.inLoop = saveLoop, saveIn
+	t.restore(outer)
+	l := t.lam(carried)
+	return wrap(pre, fmt.Sprintf("sbind (range_loop (range_idx %s)\n(fun %s => %s\n%s)\n%s) (%s\n%s)", atom(xs), coqName(k.Name), l, body, tuple(carried), l, rest()))
+}
+
+// the header lines for the externals and the struct types used ("" if none)
+func extHeader() string {
+	var b strings.Builder
+	var ks []string
+	for k := range usedExternals {
+		ks = append(ks, k)
+	}
+	sort.Strings(ks)
+	if len(ks) > 0 {
+		b.WriteString("\n   EXTERNAL functions (called, not translated):\n")
+		for _, k := range ks {
+			fmt.Fprintf(&b, "     %s\n", usedExternals[k])
+		}
+	}
+	ks = nil
+	for k := range usedStructs {
+		ks = append(ks, k)
+	}
+	sort.Strings(ks)
+	for _, k := range ks {
+		fmt.Fprintf(&b, "\n   struct %s { %s []error }, used through a pointer: STATE PASSING.  A pointer to it is\n"+
+			"     option (option (list goerror)): None = the nil pointer, Some f = a struct whose field %s is f;\n"+
+			"     a []error is option (list goerror) (None = the nil slice); goerror = nil or an opaque non-nil error.\n"+
+			"     A method that assigns the receiver returns the new state.  The CAPACITY of a slice is dropped\n"+
+			"     (make([]error, 0, n) = the empty non-nil slice): none of the translated functions can observe it.\n"+
+			"     Slices are values: no translated function stores through an index of such a slice.\n", k, usedStructs[k], usedStructs[k])
+	}
+	return b.String()
 }
